@@ -21,6 +21,12 @@ picked"): the decision tables of hdf5_reader.make_bins and
 Picker._make_bins (name literal / size tests -> ordered bin keys) and of the
 two reshape routines agree row by row, in the same test order, modulo a
 frozen exception list with reasons.
+ZIP-ORDER - no zip() of the Apollo3 reader / picker has a set operand (names
+and numbers stored side by side are paired by position). UNIT also requires
+that the NaN fall-back of an error is selected by the presence of the sigma
+key, not by the truth value of the printed sigma (0 is a value).
+PICK-CACHE - what a Picker memoises about ITS file is keyed on the instance:
+no mutable class-level container is written through self by its methods.
 NOT decided (out of reach of static analysis): that the pyparsing grammar and
 the builders put each printed number into the right cell, edition selection,
 zone/response attachment, the HDF5 group walk - value-level facts of a
@@ -35,6 +41,8 @@ def check(ctx):
     ctx.run(parsers.check_flip)
     ctx.run(parsers.check_sibling_bins)
     ctx.run(parsers.check_edge_end)
+    ctx.run(parsers.check_zip_order)
+    ctx.run(parsers.check_instance_cache)
 
 
 def variants(program):
